@@ -23,6 +23,28 @@ ASSUMPTIONS = ["inputs are dyadic (k/4, |k|<=64) so float + - x and comparisons 
                "fcst / obs / threshold / weights arrays carry the same coordinate labels in the same stored order "
                "(alignment is C04: F12)",
                "float rounding, overflow, signed zero and infinite inputs are not modelled"]
+MANIFEST = dict(
+    level="proof",
+    text="Kernel-checked Lean theorems about a line-by-line model of crps_for_ensemble and its tail/interval/chaining "
+         "variants, for ensembles of any size over the rationals: 'ecdf' equals the exact step-function integral of "
+         "(F_ens - 1{x>=obs})^2 (also with NaN members, which are dropped), 'fair' equals that integral minus the documented "
+         "offset (one valid member: NaN), total = under + over - spread, lower tail + interval + upper tail = CRPS for "
+         "every split a<=b and both methods, invariance under member permutation (all components, incl. NaN), translation and "
+         "|a|-scaling, non-negativity and zero iff every member equals the observation. The model is tied to the code by a "
+         "differential correspondence over all four public functions (both methods, components, weights, reductions, scalar "
+         "and per-case thresholds, NaN members); the same statements plus 'tw value = weighted integral' and 'integral of "
+         "the real brier_score_for_ensemble over all thresholds = CRPS (fair and not)' are evaluated on the implementation "
+         "against the Lean integral spec in exact arithmetic, exhaustively for <=3 members over a 4-value pool in thorough.",
+    note="Trusted: Lean kernel; propext/Classical.choice/Quot.sound; the hand-written model (no translator: the code uses "
+         "isel loops / concat) tied only by correspondence on dyadic inputs with tolerance 1e-9; SV.Fl (IEEE minus rounding, "
+         "overflow, signed zero); 'integral of a finite step function = sum of width x value'. Not proved, only compared: "
+         "the Brier-threshold integral identity, tw = weighted integral, additivity of the under/over/spread components of "
+         "the partition, weights/mean reduction. Not modelled: alignment of differently ordered coordinates (C04/F12), "
+         "gather_dimensions (C01), infinite inputs. Fair CRPS with one valid member is NaN (F8, not a defect); in that "
+         "situation the NaN-skipping mean over cases averages different case sets per component, so total = under+over-"
+         "spread is checked per case.",
+    technique="Lean 4 theorems over a hand model + differential correspondence + exact-integral oracle",
+    design="6/C06")
 RULE = ("one case = (function, method, components, members per forecast case incl. NaN, obs, thresholds scalar/per-case, "
         "weights, reduction); values from a small dyadic pool with >= 50 % ties among members/obs/thresholds; "
         "distinct = distinct canonical call; non-trivial = at least one non-NaN output and not malformed")
